@@ -251,7 +251,10 @@ func runSession(s *Session, o *kids.Case, dm *dumper) {
 				}
 				pl := query(id)
 				if step.Op == "startbad" {
-					pl = []string{`[1]`, `"str"`, `{"query":5}`}[step.Var%3]
+					o.Count(fmt.Sprintf("startbad_variant_%d", []int{0, 1, 2, 3, 3, 3}[step.Var%6]), 1)
+					// the last one is well-formed but refused by an extension with an ordinary (user-kind)
+					// error: it is answered with a result frame carrying the errors, then terminated
+					pl = []string{`[1]`, `"str"`, `{"query":5}`, fmt.Sprintf(`{"query":"subscription RejectMe { ctl(id:\"%s\") { seq payload } }"}`, id)}[[]int{0, 1, 2, 3, 3, 3}[step.Var%6]]
 				}
 				if cl.send(websocket.TextMessage, []byte(fmt.Sprintf(`{"type":"%s","id":"%s","payload":%s}`, t, id, pl))) {
 					st.started[id]++
